@@ -13,7 +13,7 @@ use sv_parser::*;
 
 pub fn cases(tier: Tier) -> u64 {
     match tier {
-        Tier::Quick => 20000,
+        Tier::Quick => 24000,
         Tier::Thorough => 500000,
         Tier::Tiny => 12,
     }
